@@ -13,9 +13,29 @@ theorem C09_bound (c : Cfg) (hc : 0 < c.maxRows) (s : St) (hr : Reachable c s) :
     (unanswered s).length ≤ c.ingestCap + 4 * c.maxRows :=
   backlog_bound_aux c hc s hr
 
+/-- Witness trace for the non-vacuity example: a stalled store (a flush that began and never finishes) with
+    requests piling up behind it. -/
+private def nv_stalled : List Ev :=
+  [.accept ⟨1, .rows 1⟩, .start, .accept ⟨2, .bad⟩, .actorRecv 1, .actorRecv 2, .accept ⟨3, .rows 1⟩, .actorRecv 3,
+   .flushTrigger, .enqueued, .workerTake, .flushBegin, .accept ⟨4, .force⟩, .actorRecv 4, .flushTrigger, .enqueued,
+   .accept ⟨5, .force⟩, .actorRecv 5, .flushTrigger, .accept ⟨6, .rows 3⟩, .accept ⟨7, .empty⟩]
+
+/-- non-vacuity: the premises of `C09_bound` hold for that state: the worker, the flush channel, the parked
+    request and the ingest channel are all occupied and six batches are unanswered; the theorem bounds them by 2 + 4·2 -/
+example : ∃ s, 0 < (⟨2, 2⟩ : Cfg).maxRows ∧ Reachable ⟨2, 2⟩ s ∧ s.ingestQ.length = 2 ∧ s.pending.isSome = true ∧
+    s.flushQ.isSome = true ∧ s.worker.isSome = true ∧ (unanswered s).length = 6 ∧ (unanswered s).length ≤ 2 + 4 * 2 :=
+  ⟨_, by decide, ⟨nv_stalled, rfl⟩, rfl, rfl, rfl, rfl, by decide, C09_bound ⟨2, 2⟩ (by decide) _ ⟨nv_stalled, rfl⟩⟩
+
 /-- Acceptance is impossible while the ingest channel is full (the caller blocks or fails). -/
 theorem full_channel_blocks (c : Cfg) (s : St) (r : Req) (h : s.ingestQ.length ≥ c.ingestCap) :
     step c s (.accept r) = none := by
   simp [step, h]
+
+/-- non-vacuity: the premise of `full_channel_blocks` holds once two batches sit in an ingest channel of
+    capacity 2 on a running, not stopped engine; a third, fresh, well-formed batch is not accepted -/
+example : ∃ s, run ⟨2, 5⟩ init [.start, .accept ⟨1, .rows 1⟩, .actorRecv 1, .accept ⟨2, .rows 1⟩, .accept ⟨3, .force⟩]
+      = some s ∧ s.ingestQ.length ≥ (⟨2, 5⟩ : Cfg).ingestCap ∧ s.stopped = false ∧
+    step ⟨2, 5⟩ s (.accept ⟨4, .rows 1⟩) = none :=
+  ⟨_, rfl, by decide, rfl, full_channel_blocks ⟨2, 5⟩ _ ⟨4, .rows 1⟩ (by decide)⟩
 
 end BloomVerif.C09
